@@ -15,16 +15,9 @@
 //go:build !verif
 // +build !verif
 
-package dragonboat
+package rsm
 
-// verifEnabled is true only in builds made with the `verif` build tag, which
-// is used by the deterministic simulation harness kept outside of this
-// repository. In regular builds it is a false constant and every
-// `if verifEnabled` branch is removed by the compiler.
+// verifEnabled is true only in builds made with the `verif` build tag.
 const verifEnabled = false
 
-func (e *engine) verifClose() error { return nil }
-
-func verifYield(string) {}
-
-func verifKeySeed(uint64, uint64, uint64) (int64, bool) { return 0, false }
+func verifHeaderTime(t uint64) uint64 { return t }
